@@ -30,10 +30,10 @@ func globalIdent(old ast.GlobalIdent) ir.GlobalIdent {
 		panic(fmt.Errorf("invalid global identifier %q; missing '%s' prefix", ident, prefix))
 	}
 	ident = ident[len(prefix):]
-	// positive integer -> ID
-	// everything else (including negative integer) -> Name
-	if id, err := strconv.ParseInt(ident, 10, 64); err == nil && id >= 0 {
-		return ir.GlobalIdent{GlobalID: id}
+	// unsigned integer -> ID
+	// everything else (including signed integers such as -0 and +1) -> Name
+	if id, err := strconv.ParseUint(ident, 10, 63); err == nil {
+		return ir.GlobalIdent{GlobalID: int64(id)}
 	}
 	// Unquote after trying to parse as ID, since @"42" is recognized as named
 	// and not unnamed.
@@ -52,10 +52,10 @@ func localIdent(old ast.LocalIdent) ir.LocalIdent {
 		panic(fmt.Errorf("invalid local identifier %q; missing '%s' prefix", ident, prefix))
 	}
 	ident = ident[len(prefix):]
-	// positive integer -> ID
-	// everything else (including negative integer) -> Name
-	if id, err := strconv.ParseInt(ident, 10, 64); err == nil && id >= 0 {
-		return ir.LocalIdent{LocalID: id}
+	// unsigned integer -> ID
+	// everything else (including signed integers such as -0 and +1) -> Name
+	if id, err := strconv.ParseUint(ident, 10, 63); err == nil {
+		return ir.LocalIdent{LocalID: int64(id)}
 	}
 	// Unquote after trying to parse as ID, since %"42" is recognized as named
 	// and not unnamed.
@@ -74,10 +74,10 @@ func labelIdent(old ast.LabelIdent) ir.LocalIdent {
 		panic(fmt.Errorf("invalid label identifier %q; missing '%s' suffix", ident, suffix))
 	}
 	ident = ident[:len(ident)-len(suffix)]
-	// positive integer -> ID
-	// everything else (including negative integer) -> Name
-	if id, err := strconv.ParseInt(ident, 10, 64); err == nil && id >= 0 {
-		return ir.LocalIdent{LocalID: id}
+	// unsigned integer -> ID
+	// everything else (including signed integers such as -0 and +1) -> Name
+	if id, err := strconv.ParseUint(ident, 10, 63); err == nil {
+		return ir.LocalIdent{LocalID: int64(id)}
 	}
 	// Unquote after trying to parse as ID, since %"42" is recognized as named
 	// and not unnamed.
